@@ -127,6 +127,7 @@ fn hist_cases() -> u64 {
 }
 const GRID_CASES: u64 = 4 * 3 * 3; // thing x speed x ibs
 const E2_CASES: u64 = 3;
+const E2S_CASES: u64 = 2;
 
 fn hist_depth(tier: Tier) -> usize {
 	tier.pick(5, 6)
@@ -140,7 +141,7 @@ impl Check for C05 {
 		Level::ModelChecking
 	}
 	fn num_cases(&self, _tier: Tier) -> u64 {
-		hist_cases() + GRID_CASES + E2_CASES
+		hist_cases() + GRID_CASES + E2_CASES + E2S_CASES
 	}
 	fn max_workers(&self) -> usize {
 		16
@@ -162,6 +163,8 @@ impl Check for C05 {
 				"scheduling grid: {} scheduled on a clock at {} ticks/s, internal buffer {}: target ticks 0..=3 x fraction {{0,.25,.5}} x every composition of 12 frames into callbacks of {{1,2,3,5}} frames",
 				THINGS[thing], speed, ibs
 			)
+		} else if idx >= hist_cases() + GRID_CASES + E2_CASES {
+			format!("E2 interleavings: {}", E2S_NAMES[(idx - hist_cases() - GRID_CASES - E2_CASES) as usize])
 		} else {
 			format!("E2 interleavings: {}", E2_NAMES[(idx - hist_cases() - GRID_CASES) as usize])
 		}
@@ -171,12 +174,14 @@ impl Check for C05 {
 			"clock history".into()
 		} else if idx < hist_cases() + GRID_CASES {
 			"scheduling grid".into()
+		} else if idx >= hist_cases() + GRID_CASES + E2_CASES {
+			format!("E2 {}", E2S_NAMES[(idx - hist_cases() - GRID_CASES - E2_CASES) as usize])
 		} else {
 			format!("E2 {}", E2_NAMES[(idx - hist_cases() - GRID_CASES) as usize])
 		}
 	}
 	fn rule(&self) -> String {
-		"E1a: all sequences of length <= depth over 11 letters (start, pause, stop, 5 speed changes incl. a tween scheduled on the clock's own time, callbacks of 1/3/4 frames) x sample rate {4,8} x internal buffer {1,2,4}, exact tick arithmetic (binary-exact dt). E1b: 4 kinds of scheduled thing x 3 speeds x 3 buffer sizes x 12 target times x every composition of 12 frames into callbacks from {1,2,3,5}. E2: every interleaving (preemption bound in evidence) of reader || audio thread (|| stop), switching before each atomic load/store of the clock's shared words. states = distinct clock model states; non-trivial = executions in which the clock advanced / two threads touched the clock words in an interleaved order".into()
+		"E1a: all sequences of length <= depth over 11 letters (start, pause, stop, 5 speed changes incl. a tween scheduled on the clock's own time, callbacks of 1/3/4 frames) x sample rate {4,8} x internal buffer {1,2,4}, exact tick arithmetic (binary-exact dt). E1b: 4 kinds of scheduled thing x 3 speeds x 3 buffer sizes x 12 target times x every composition of 12 frames into callbacks from {1,2,3,5}. E2: every interleaving (preemption bound in evidence) of reader || audio thread (|| stop), switching before each atomic load/store of the clock's shared words; and of game(add_clock; start; play(sound scheduled on that clock)) || audio(3 callbacks), switching at every resource hand-over point: a sound waiting on a clock that exists is never cancelled. states = distinct clock model states; non-trivial = executions in which the clock advanced / two threads touched the clock words in an interleaved order".into()
 	}
 	fn assumptions(&self) -> Vec<String> {
 		vec![
@@ -204,6 +209,8 @@ impl Check for C05 {
 				pacer::set_mode(pacer::Mode::Pacer);
 			}
 			grid(tier, thing, speed, ibs, ctx);
+		} else if idx >= hist_cases() + GRID_CASES + E2_CASES {
+			e2_sched(tier, idx - hist_cases() - GRID_CASES - E2_CASES, ctx);
 		} else {
 			e2(tier, idx - hist_cases() - GRID_CASES, ctx);
 		}
@@ -747,6 +754,135 @@ fn e2(tier: Tier, which: u64, ctx: &mut Ctx) {
 	ctx.count(&format!("e2_{}_max_points", which), stats.max_points as u64);
 	ctx.count("e2_capped", stats.capped as u64);
 	ctx.count("e2_horizon_hits", stats.horizon_hits);
+	for o in outcomes {
+		ctx.outcome(o);
+		ctx.state(o);
+	}
+	ctx.nontrivial_extra += nontrivial;
+	for (s, d) in fails {
+		ctx.fail(s, d);
+	}
+}
+
+// ---------------------------------------------------------------------------------------------
+// E2: something scheduled on a clock that was created a moment ago. Whatever the interleaving of the
+// gameplay thread's (add_clock; start; play) with the audio thread's adoption of new resources, the
+// sound waits for the clock: it is cancelled only if the clock no longer exists - and this one does.
+
+const E2S_NAMES: [&str; 2] = [
+	"game(add_clock; start; play(static sound at clock time 1)) || audio(3 callbacks): never cancelled, heard once the clock reaches 1",
+	"game(add_clock; start; add_sub_track; track.play(static sound at clock time 1)) || audio(3 callbacks)",
+];
+
+fn e2_sched(tier: Tier, which: u64, ctx: &mut Ctx) {
+	use std::sync::{Arc, Mutex};
+	fn filt(s: &'static str) -> bool {
+		s.starts_with("res.") || s.starts_with("rtrb.") || s.starts_with("arena.")
+	}
+	let cfg = Config { filter: filt, horizon: 4000, max_spin_rounds: 8, record_sites: true, ..Default::default() };
+	#[derive(Debug, Clone, Default, PartialEq)]
+	struct Obs {
+		states: Vec<String>,
+		heard: Vec<f32>,
+		monitors: Vec<String>,
+		final_ticks: u64,
+	}
+	let mut body = |prefix: &[u8]| -> (sched::RunResult, Obs) {
+		let mut m = rig::manager(4, 1, rig::caps(2), MainTrackBuilder::new());
+		let mut renderer = m.backend_mut().renderer.take().expect("renderer");
+		let obs = Arc::new(Mutex::new(Obs::default()));
+		let back = Arc::new(Mutex::new(None));
+		type Keep = (Manager, ClockHandle, Option<kira::track::TrackHandle>, kira::sound::static_sound::StaticSoundHandle);
+		let keep: Arc<Mutex<Option<Keep>>> = Arc::new(Mutex::new(None));
+		let mut ex = Exec::begin(&cfg, prefix);
+		{
+			let keep = keep.clone();
+			ex.spawn("game", move || {
+				let mut clock = m.add_clock(ClockSpeed::TicksPerSecond(2.0)).expect("clock");
+				clock.start();
+				let data = dc_loop(4).start_time(StartTime::ClockTime(ClockTime { clock: clock.id(), ticks: 1, fraction: 0.0 }));
+				if which == 0 {
+					let h = m.play(data).expect("play");
+					*keep.lock().unwrap() = Some((m, clock, None, h));
+				} else {
+					let mut t = m.add_sub_track(kira::track::TrackBuilder::new()).expect("track");
+					let h = t.play(data).expect("play");
+					*keep.lock().unwrap() = Some((m, clock, Some(t), h));
+				}
+			});
+		}
+		{
+			let (obs, back) = (obs.clone(), back.clone());
+			ex.spawn("audio", move || {
+				let mut buf = [0.0f32; 2];
+				for _ in 0..3 {
+					let rep = rig::callback_on(&mut renderer, &mut buf, 1, 2);
+					let mut o = obs.lock().unwrap();
+					if !rep.ok() {
+						o.monitors.push(format!("{:?}", rep));
+					}
+					o.heard.push(buf[0]);
+				}
+				*back.lock().unwrap() = Some(renderer);
+			});
+		}
+		let res = ex.run();
+		let mut o = obs.lock().unwrap().clone();
+		let kept = keep.lock().unwrap().take();
+		if let (Some(mut r), Some((m, clock, t, h))) = (back.lock().unwrap().take(), kept) {
+			o.states.push(format!("{:?}", h.state()));
+			// the clock runs at 2 ticks/s on a 4 Hz device: tick 1 is reached within 2 frames of its adoption
+			for _ in 0..6 {
+				let mut b = [0.0f32; 2];
+				rig::callback_on(&mut r, &mut b, 1, 2);
+				o.heard.push(b[0]);
+				o.states.push(format!("{:?}", h.state()));
+			}
+			o.final_ticks = clock.time().ticks;
+			drop(r);
+			drop((m, clock, t, h));
+		}
+		(res, o)
+	};
+	let mut outcomes = std::collections::HashSet::new();
+	let mut fails: Vec<(String, String)> = vec![];
+	let mut nontrivial = 0u64;
+	let mut judge = |res: &sched::RunResult, o: &Obs, choices: &[u8]| {
+		outcomes.insert(hash64(&format!("{:?}", o)));
+		if choices.iter().any(|c| *c != 0) {
+			nontrivial += 1;
+		}
+		for p in &res.panics {
+			fails.push((format!("panic in a controlled thread: {} :: E2 scheduled sound #{}", p, which), sched::fmt_schedule(res)));
+		}
+		if let Some(mn) = o.monitors.first() {
+			fails.push((format!("a callback racing with add_clock / play panics, allocates or writes an ill-formed sample :: E2 scheduled sound #{}", which), format!("{}; {}", mn, sched::fmt_schedule(res))));
+		}
+		if o.states.iter().any(|s| s == "Stopped") {
+			fails.push((
+				format!("a sound scheduled on a clock that exists is cancelled (becomes Stopped) :: E2 scheduled sound #{}", which),
+				format!("states {:?} heard {:?} clock ticks {}; {}", o.states, o.heard, o.final_ticks, sched::fmt_schedule(res)),
+			));
+			return;
+		}
+		if o.final_ticks >= 2 && !o.heard.iter().any(|x| *x != 0.0) {
+			fails.push((
+				format!("a sound scheduled on a clock never starts although the clock passed its start time :: E2 scheduled sound #{}", which),
+				format!("states {:?} heard {:?} clock ticks {}; {}", o.states, o.heard, o.final_ticks, sched::fmt_schedule(res)),
+			));
+		}
+	};
+	let stats = sched::explore(tier.pick(Some(2), Some(3)), 3_000_000, &mut body, &mut judge);
+	if let Some(e) = stats.error {
+		ctx.fail(format!("MACHINERY: scheduler error: {}", e), "");
+	}
+	ctx.schedules += stats.schedules;
+	ctx.evals += stats.schedules;
+	ctx.traces += stats.schedules;
+	ctx.transitions += stats.schedules * stats.max_points as u64;
+	ctx.count(&format!("e2_sched{}_schedules", which), stats.schedules);
+	ctx.count(&format!("e2_sched{}_max_points", which), stats.max_points as u64);
+	ctx.count("e2_capped", stats.capped as u64);
 	for o in outcomes {
 		ctx.outcome(o);
 		ctx.state(o);
